@@ -25,6 +25,10 @@ func runC13(c *Ctx) {
 	if len(c.Res.Violations) > 0 {
 		return
 	}
+	c13AltFilters(c, c.Scale(12, 200))
+	if len(c.Res.Violations) > 0 {
+		return
+	}
 	sz := wpc13.DefaultSizes()
 	sz.Tables = c.Scale(200, 4000)
 	if c.Thorough {
